@@ -219,6 +219,15 @@ def generate(extra_sections=()):
     A(f"def abstractHeaders : Bool := {'true' if cfg.getboolean('pygopherd', 'abstract_headers', fallback=False) else 'false'}")
     A(f"def abstractEntries : Str := {lstr(cfg.get('pygopherd', 'abstract_entries', fallback=''))}")
     A(f"def extstrip : Str := {lstr(cfg.get('handlers.UMN.UMNDirHandler', 'extstrip', fallback=''))}")
+    try:
+        im = eval(cfg.get("protocols.http.HTTPProtocol", "iconmapping"))
+        info["iconMapping"] = "exact"
+    except Exception:  # noqa
+        im = {}
+        info["iconMapping"] = "tie degraded"
+    A("def iconMapping : List (Str × Str) := [" + ", ".join(f"({lstr(k)}, {lstr(v)})" for k, v in im.items()) + "]")
+    A(f"def gplusAdmin : Str := {lstr(cfg.get('protocols.gopherp.GopherPlusProtocol', 'admin', fallback=''))}")
+    A(f"def defaultMime : Str := {lstr(cfg.get('GopherEntry', 'defaultmimetype', fallback=''))}")
     for sec in extra_sections:
         try:
             lines = sec(info)
